@@ -329,6 +329,11 @@ impl VirtualSystem {
         // TODO Support AT_FDCWD
         const _POSIX_SYMLOOP_MAX: i32 = 8;
 
+        if path.as_unix_str().is_empty() {
+            // An empty pathname never refers to a file.
+            return Err(Errno::ENOENT);
+        }
+
         let mut path = Cow::Borrowed(path);
         for _count in 0.._POSIX_SYMLOOP_MAX {
             let resolved_path = self.resolve_relative_path(&path);
@@ -408,6 +413,10 @@ impl VirtualSystem {
         flags: EnumSet<OpenFlag>,
         mode: Mode,
     ) -> Result<(Rc<RefCell<Inode>>, bool, bool)> {
+        if path.is_empty() {
+            // An empty pathname never refers to a file.
+            return Err(Errno::ENOENT);
+        }
         let path = self.resolve_relative_path(Path::new(UnixStr::from_bytes(path.to_bytes())));
         let umask = self.current_process().umask;
 
@@ -436,6 +445,11 @@ impl VirtualSystem {
                 inode
             }
             Err(Errno::ENOENT) if flags.contains(OpenFlag::Create) => {
+                if path.as_unix_str().as_bytes().ends_with(b"/") {
+                    // A pathname with a trailing slash names a directory,
+                    // which open does not create.
+                    return Err(Errno::EISDIR);
+                }
                 let mut inode = Inode::new([]);
                 inode.permissions = mode.difference(umask);
                 let inode = Rc::new(RefCell::new(inode));
